@@ -72,6 +72,7 @@ type Run struct {
 	sitesHit map[string]bool
 	needs   map[string]bool
 	dynFn   *Val
+	inDefer int
 	kindOrd map[string]map[ssa.Instruction]int
 }
 
